@@ -5,14 +5,85 @@ from vlib import Leg
 
 FRESH = ["zz9", "renamed_1", "q7_", "NewName"]
 
+# ---- client settings (workspace/didChangeConfiguration) in front of / between the renames (seeded C11-6: rename was grouped with
+# find-references under the user setting `ReferenceIncudeDefine` = "list the definition among the references", so the declaration
+# edit was lost when the key is false or ABSENT - a bool with omitempty: a settings object without the key resets it).  The
+# edit set of a rename must not depend on any of this: model and spec know no settings (the K items are ignored by the model
+# side's case parser), so every deviation shows as impl != model = spec.  harness/srv_script.go item `K:<k>:<hex JSON settings>`
+# = the notification sent right before step number k (steps counted with the didOpen steps).
+WARN_ALL = {"AllEnable": True, "CheckSyntax": True, "CheckNoDefine": True, "CheckAfterDefine": True, "CheckLocalNoUse": True}
+
+
+def settings_variant(rng):
+    base = {}
+    k = rng.random()
+    if k < 0.4:
+        base["ReferenceIncudeDefine"] = False
+    elif k < 0.6:
+        base["ReferenceIncudeDefine"] = True
+    # else: key absent
+    if rng.random() < 0.5:
+        base["ReferenceMaxNum"] = rng.choice([3000, 3000, 500, 100000])
+    if rng.random() < 0.3:
+        base["PreviewFieldsNum"] = rng.choice([30, 10])
+    if rng.random() < 0.2:
+        base["Report"] = False
+    m = rng.random()
+    if m < 0.15:
+        return {}                                           # an empty settings object
+    if m < 0.25:
+        return {"luahelper": {}}
+    st = {"luahelper": {"base": base}}
+    if rng.random() < 0.5:
+        st["luahelper"]["Warn"] = dict(WARN_ALL)
+    if rng.random() < 0.2:
+        st["files"] = {"associations": {}}
+    return st
+
+
+def with_settings(case, rng, p=0.5):
+    """a share p of the cases gets one to three settings notifications: before the first didOpen, after the last one, or between
+    two renames (the first notification of a session only stores the values, a later one re-runs the whole workspace analysis)"""
+    import json
+    if rng.random() >= p:
+        return case
+    nsteps = sum(1 for it in case.split(" ") if it.startswith("S:"))
+    nopen = sum(1 for it in case.split(" ") if it.startswith("S:open:"))
+    ks = []
+    for _ in range(rng.choice([1, 1, 1, 2, 3])):
+        m = rng.random()
+        ks.append(0 if m < 0.3 else (nopen if m < 0.75 else rng.randrange(nopen, max(nopen + 1, nsteps))))
+    return case + "".join(" K:%d:%s" % (k, json.dumps(settings_variant(rng), separators=(",", ":")).encode().hex()) for k in sorted(ks))
+
+
+SETTINGS_SEED_A = ("counter = 0\nlocal function step(n, by)\n  local sum = n\n  for i = 1, by do\n    sum = sum + i\n  end\n"
+                   "  for k, v in pairs({ n, by }) do\n    sum = sum + k * v\n  end\n  counter = counter + 1\n  return sum\nend\n"
+                   "use(step(1, 2), step(3, 4))\n")
+
+
+def settings_seed_cases():
+    """the workspace of seeded/C11-6's demonstration (parameter, local, both loop variables, local function, global across files)
+    under the three spellings of the key; narrow-fragment text except `pairs({ n, by })` - replaced by a call"""
+    import json
+    a = SETTINGS_SEED_A.replace("pairs({ n, by })", "iter(n, by)")
+    files = [("a.lua", a), ("b.lua", "use(counter)\n")]
+    cur = [(0, 2, 14), (0, 1, 23), (0, 10, 9), (0, 4, 16), (0, 7, 20), (0, 12, 4), (1, 0, 4), (0, 0, 0)]
+    steps = ["rename:%d:%d:%d:%s" % (f, l, c, c05.hx("fresh_name")) for f, l, c in cur]
+    out = []
+    for st in ({"luahelper": {"base": {"ReferenceMaxNum": 3000, "ReferenceIncudeDefine": False}}},
+               {"luahelper": {"base": {"ReferenceMaxNum": 3000}}},
+               {"luahelper": {"base": {"ReferenceMaxNum": 3000, "ReferenceIncudeDefine": True}}}):
+        out.append(c05.make_case(files, steps) + " K:2:" + json.dumps(st, separators=(",", ":")).encode().hex())
+    return out
+
 
 def gen_rename(rng, tier):
-    out = []
+    out = settings_seed_cases()
     for _ in range(c05.n_programs(tier, quick=300)):
         k = rng.random()
         ws = c05.gen_twin_workspace(rng) if k < 0.08 else (c05.gen_returned_local_workspace(rng) if k < 0.12 else c05.gen_workspace(rng))
         steps = c05.cursor_steps(["rename"], ws, rng, newname=rng.choice(FRESH))
-        out.append(c05.make_case([(fn, text) for fn, text, _ in ws], steps))
+        out.append(with_settings(c05.make_case([(fn, text) for fn, text, _ in ws], steps), rng))
     # workspaces with more files than the reference search has pool workers (runtime.NumCPU()+2; find-references and
     # rename share that pool: seeded C06-3, C11-5): a GLOBAL defined in one file and used once in every other file, each
     # use on a line of its own number; renamed from the defining file and from two of the using files - the edits must be
@@ -32,7 +103,7 @@ def gen_rename_wide(rng, tier):
     for _ in range(c05.n_programs(tier, quick=120)):
         ws = c05.pick_wide_workspace(rng)
         steps = c05.cursor_steps(["rename"], ws, rng, newname=rng.choice(FRESH))
-        out.append(c05.make_case([(fn, text) for fn, text, _ in ws], steps))
+        out.append(with_settings(c05.make_case([(fn, text) for fn, text, _ in ws], steps), rng, 0.35))
     for ws in c05.chain_workspaces(rng, tier, 8):        # call-chain statements with callbacks (seeded C05-5)
         out.append(c05.make_case([(fn, text) for fn, text, _ in ws],
                                  c05.cursor_steps(["rename"], ws, rng, newname=rng.choice(FRESH))))
@@ -46,5 +117,31 @@ LEGS = [
 ]
 
 
+class SettingsRunner(c05.BinderRunner):
+    """the family's runner makes one row per query and rebuilds the row's case from files + opens + that step: put the settings
+    notifications (K items) that precede the step back, so that a failing input carries them"""
+
+    def eval_cases(self, leg, cases):
+        rows = super().eval_cases(leg, cases)
+        if not any(" K:" in c for c in cases):
+            return rows
+        out, p = [], 0
+        for c in cases:
+            fs, steps = c05.split_case(c)
+            n = 1 if (p < len(rows) and rows[p][0] == c) else len(steps)
+            ks = [it.split(":", 2) for it in c.split(" ") if it.startswith("K:")]
+            for j in range(n):
+                row = rows[p + j]
+                if ks and row[0] != c:
+                    keep = ["K:%d:%s" % (min(int(k), len(fs)), h) for _, k, h in ks if int(k) <= len(fs) + j]
+                    row = (" ".join([row[0]] + keep),) + tuple(row[1:])
+                out.append(row)
+            p += n
+        return out + rows[p:]
+
+
 def main(tier, seed):
-    return c05.run_family("C11", LEGS, tier, seed)
+    return c05.run_family("C11", LEGS, tier, seed, runner_cls=SettingsRunner, assume_extra=[
+        "c11.rename / c11.wide: a share of the cases sends workspace/didChangeConfiguration notifications (K items: key "
+        "ReferenceIncudeDefine true / false / absent, other keys, empty settings; before the didOpens, after them, between two "
+        "renames); model and spec know no settings - the edit set of a rename must not depend on them"])
